@@ -8,7 +8,7 @@ from . import c11
 ID = "C13"
 LEVEL = "fault_enumeration"
 BUILDS = ["rel"]
-BUDGET_S = {"quick": 150, "thorough": 2400}
+BUDGET_S = {"quick": 600, "thorough": 2400}
 RULE = ("A table of ~90 malformations (unknown sort direction/format; non-numeric key under numeric sort as the only, first, "
         "middle or last key, also behind an earlier warning-severity violation; uncompilable regexes in keep-sorted-pattern, "
         "keep-unique, line-pattern, check-lua-pattern, check-ai-pattern on blocks with content; bad line-count expressions "
